@@ -123,6 +123,40 @@ pub fn run_stack<E: Entry, S: IdxC<Idx<E>>>(ctx: &mut Ctx) {
             ctx.end_history();
             return;
         }
+        // len, is_empty and iteration agree with get
+        if fs.len() != len || fs.is_empty() != (len == 0) {
+            ctx.fail("stack-len", format!("FlatStack<{}, {}>: get(i) succeeds for exactly {len} positions but len() = {} and is_empty() = {}", E::label(), S::KIND, fs.len(), fs.is_empty()));
+            ctx.end_history();
+            return;
+        }
+        let model = &st.model;
+        let walked = panics::catch(|| {
+            let mut n = 0usize;
+            for (i, item) in fs.iter().enumerate() {
+                if i >= model.len() {
+                    return Err(format!("iteration yields more than {} items", model.len()));
+                }
+                E::check(item, &model[i], Lvl::BASIC).map_err(|e| format!("item {i} of the iteration differs from get({i}): {e}"))?;
+                n += 1;
+            }
+            if n != model.len() {
+                return Err(format!("iteration yields {n} items, get(i) succeeds for {}", model.len()));
+            }
+            Ok(())
+        });
+        match walked {
+            Ok(Ok(())) => {}
+            Ok(Err(e)) => {
+                ctx.fail("stack-iter", format!("FlatStack<{}, {}>: {e}", E::label(), S::KIND));
+                ctx.end_history();
+                return;
+            }
+            Err(p) => {
+                ctx.fail_panic("stack-iter", &p);
+                ctx.end_history();
+                return;
+            }
+        }
         ctx.nontrivial = true;
     }
     ctx.cover(&format!("stack-get:{}", E::label()));
